@@ -69,18 +69,22 @@ Theorem C10_no_panic_archive_has :
 Proof. exact no_panic_archive_has. Qed.
 Print Assumptions C10_no_panic_archive_has.
 
-Theorem C10_archive_open_panic_only_alloc :
-  forall file, open_archive file = Panic ->
-    exists f, load_footer file = Ok f /\ (268435456 <= af_nspans f + 1 \/ 268435456 <= af_chunks f).
-Proof. exact archive_open_panic_only_alloc. Qed.
-Print Assumptions C10_archive_open_panic_only_alloc.
+Theorem C10_no_panic_archive_open :
+  forall file, open_archive file <> Panic.
+Proof. exact no_panic_archive_open. Qed.
+Print Assumptions C10_no_panic_archive_open.
 
-Theorem C10_no_panic_archive_refuted :
-  (exists file a h, open_archive file = Ok a /\ aget crc32c file a h = GPanic /\ aiterate crc32c file a = IPanic)
-  /\ (exists file a h, open_archive file = Ok a /\ aget crc32c file a h = GPanic)
-  /\ (exists file, open_archive file = Panic).
-Proof. exact no_panic_archive_refuted. Qed.
-Print Assumptions C10_no_panic_archive_refuted.
+Theorem C10_no_panic_archive_get :
+  forall crc file a h,
+    N.of_nat (length (ax_prefixes a)) < 4294967296 -> addr_prefix h < u64 -> Forall (fun x => x < u64) (ax_prefixes a) ->
+    aget crc file a h <> GPanic.
+Proof. exact no_panic_archive_get. Qed.
+Print Assumptions C10_no_panic_archive_get.
+
+Theorem C10_no_panic_archive_iterate :
+  forall crc file a, aiterate crc file a <> IPanic.
+Proof. exact no_panic_archive_iterate. Qed.
+Print Assumptions C10_no_panic_archive_iterate.
 
 Theorem C10_archive_misread_refuted :
   exists f f' a a' h1 h2 c1 c2, c1 <> c2
